@@ -691,13 +691,15 @@ let timeout_case (toks : string list) : string =
   | [ "Z"; maxsz; segs ] ->
     (* HandlerModel.serve: Handler::onInput read by read on a live connection *)
     let reads = List.map bytes_of_hex (List.filter (fun x -> x <> "") (String.split_on_char ',' segs)) in
-    let acts = M.serve M.typed_other_inst M.set_cookie_inst (nat_of_int (int_of_string maxsz)) M.pstate_init reads in
+    (match M.serve M.typed_other_inst M.set_cookie_inst (nat_of_int (int_of_string maxsz)) M.pstate_init reads with
+     | None -> "Z out-of-fuel"
+     | Some acts ->
     let codes = List.filter_map (function M.ARespond c -> Some (decimal_of_n c) | M.AHandler _ -> Some "200" | M.AWait -> None) acts in
     let seen = List.filter_map (function
         | M.AHandler m -> Some (str_of_bytes m.M.m_resource ^ ":" ^ string_of_int (List.length m.M.m_body))
         | _ -> None) acts in
     Printf.sprintf "Z codes=%s handler=%d seen=%s" (if codes = [] then "-" else String.concat "," codes) (List.length seen)
-      (if seen = [] then "-" else String.concat "," seen)
+      (if seen = [] then "-" else String.concat "," seen))
   | [ "W"; hT; bT; script ] ->
     let hT = int_of_string hT and bT = int_of_string bT in
     let steps = List.filter (fun x -> x <> "") (String.split_on_char ',' script) in
